@@ -17,6 +17,19 @@ CHECKS = {
  "C20": ("opspace", "bounded-exhaustive enumeration; relational oracle between the eight rounding-mode executions and transformed-operand executions of the implementation itself",
          "Every (operation x operands x precision x exponent range) point is executed under all eight rounding modes and under swapped / negated+mirrored / power-of-ten-scaled operands; bracketing, half-mode membership, exactness agreement, floor/ceiling adjacency, commutativity, Sub=Add(-y), mirror and scaling relations and Round monotonicity are checked on every point without any reference model.",
          "Adjacency is computed from the context grid; only the enumerated product is claimed.", "4/C20"),
+
+ "C09": ("opspace", "bounded-exhaustive enumeration of (x, target exponent, context, mode) on the real code against an exact integer quotient/remainder oracle",
+         "Every point of the finite product is executed for Quantize, RoundToIntegralValue/Exact, Ceil and Floor and compared with x/10^e rounded to an integer by the GDA decision table (exact exponent, InvalidOperation rule, Inexact/Rounded rules, never Underflow/Overflow).",
+         "Exact integer oracle on math/big; quantifier restrictions of the property (rounded integer within Emax; integer part fits the precision for Ceil/Floor) are applied.", "4/C09"),
+ "C10": ("opspace", "bounded-exhaustive enumeration of operand pairs x contexts on the real code against exact integer division on a common exponent",
+         "Every finite pair of the product runs QuoInteger and Rem and is compared with q*=trunc(x/y), r*=x-q*y (DivisionImpossible rule, signs, exponent 0, single rounding of r*, mode-independence when r* fits), including exponent gaps up to and beyond the package limit.",
+         "Exact integer oracle on math/big.", "4/C10"),
+ "C15": ("opspace", "exhaustive enumeration of all ordered pairs and triples of a finite value alphabet on the real code against exact comparison and the order axioms",
+         "All ordered pairs of V (Cmp, Context.Cmp, CmpTotal: exact order, antisymmetry, zero iff identical, documented class order, exponent tie-break) and all ordered triples of W (transitivity), including NaN payloads, dirty infinities, coinciding digit-count+exponent sums and gaps up to the package limit.",
+         "NaN payload order within a class is only checked through the axioms.", "4/C15"),
+ "C19": ("opspace", "exhaustive enumeration of integers (dense range + every bit-length and power-of-ten boundary) and of m*10^t decimals x destination pre-states x contexts on the real code",
+         "NumDigits on every |b| < 2^20 (2^22 thorough) and every bit-length/power-of-ten boundary up to thousands of bits, both signs, against the decimal text length; Decimal.Reduce/Context.Reduce on the m*10^t family against value equality, no trailing zero, exact count, independence of the destination.",
+         "Zero-count convention: zeros of the rounded coefficient; zero operand => 0.", "4/C19"),
 }
 
 NOT_YET = {}
